@@ -514,6 +514,32 @@ fn dump_doc(idx: &str, flags: &str, input: &str, opt: ParsingOptions, doc: &Docu
                 }
             }
         }
+        // (4) attribute equality ACROSS documents: an attribute of this document against the attributes of two probe
+        //     documents (one without, one with several namespaces), in both directions, must be equality of
+        //     (namespace, local name, value)
+        {
+            let p1 = Document::parse("<e a='1' b=''/>").unwrap();
+            let p2 = Document::parse("<e xmlns:n='urn:n' xmlns:m='urn:m' xmlns:k='urn:k' m:a='1' a='1' n:a='1' k:b=''/>").unwrap();
+            let mine: Vec<roxmltree::Attribute> = doc.descendants().flat_map(|n| n.attributes()).take(12).collect();
+            for pd in [&p1, &p2] {
+                for pa in pd.root_element().attributes() {
+                    for a in &mine {
+                        let want = (a.namespace(), a.name(), a.value()) == (pa.namespace(), pa.name(), pa.value());
+                        if (*a == pa) != want || (pa == *a) != want {
+                            anomalies += 1;
+                        }
+                    }
+                    for qd in [&p1, &p2] {
+                        for qa in qd.root_element().attributes() {
+                            let want = (qa.namespace(), qa.name(), qa.value()) == (pa.namespace(), pa.name(), pa.value());
+                            if (qa == pa) != want {
+                                anomalies += 1;
+                            }
+                        }
+                    }
+                }
+            }
+        }
         writeln!(o, "{} LB {}", idx, anomalies).unwrap();
         // attribute equality over the first 12 attributes of the document
         let all: Vec<roxmltree::Attribute> = doc.descendants().flat_map(|n| n.attributes()).take(12).collect();
